@@ -169,6 +169,9 @@ def rmul(a, b):
     return z(a) * z(b)
 
 
+NATIVE_REPLAY = [False]   # set by native.run_native
+
+
 class DivisionObligation:
     hook = None       # set by engine: hook(denominator R-value) -> None
     hook_cond = None  # set by engine: hook_cond(condition "denominator is non-zero") -> None
@@ -178,6 +181,10 @@ def rdiv(a, b, *, guard=True):
     """real division a/b; emits a `denominator != 0` obligation through the engine hook"""
     if is_conc(b):
         if b == 0:
+            if NATIVE_REPLAY[0]:
+                # numeric replay: everything is concrete, so the unselected branch of a `where` divides by a concrete
+                # zero; the value is a NaN marker there (numeval), which the comparison with the native result skips
+                return z3.Real("NAN!")
             raise ZeroDivisionError("division by concrete zero")
         if is_conc(a):
             return Fraction(a) / Fraction(b)
